@@ -105,6 +105,9 @@ class Gen(object):
             if r.random() < 0.4:
                 holder = root.add(El("state", {"id": self.new_id("s")}))
             p = holder.add(El("parallel", {"id": self.new_id("p")}))
+            completable = r.random() < self.f.get("completable_p", 0.4)     # (nearly) every region can reach a final state: parallels get done
+            self.completable = completable
+            self.finishing = []
             for _ in range(r.randint(2, 4)):
                 reg = p.add(El("state", {"id": self.new_id("s")}))
                 for _ in range(r.choice([1, 1, 2, 2, 3])):
@@ -118,14 +121,16 @@ class Gen(object):
                             c.add(El("state", {"id": self.new_id("s")}))
                     else:
                         reg.add(El("state", {"id": self.new_id("s")}))
-                if self.f["finals"] and r.random() < 0.35:
+                if self.f["finals"] and r.random() < (1.0 if completable else 0.2):
                     # regions that can finish: done.state of the region, and of the (possibly nested) parallel once all have
                     reg.add(El("final", {"id": self.new_id("f")}))
+                    self.finishing.append(reg)
                     for q in [c for c in reg.children if c.tag == "parallel"]:
                         for qr in q.children:
-                            if r.random() < 0.7:
+                            if r.random() < (1.0 if completable else 0.5):
                                 qr.add(El("state", {"id": self.new_id("s")}))
                                 qr.add(El("final", {"id": self.new_id("f")}))
+                                self.finishing.append(qr)
                 if self.f["history"] and r.random() < 0.2:
                     reg.add(El("history", {"id": self.new_id("h"), "type": r.choice(["shallow", "deep"])}))
             if r.random() < 0.5:
@@ -190,6 +195,18 @@ class Gen(object):
         for s in states:
             for _ in range(r.choice([0, 1, 1, 2, 2, 3] if not (self.f["par_bias"] or self.f["hist_bias"]) else [1, 1, 2, 2, 3])):
                 self.make_transition(s, all_targets)
+        for reg in getattr(self, "finishing", []):
+            # a way into the region's final state: mostly on "c", which nothing else in a small-alphabet chart listens to
+            # except "*", and from the region itself, so that it works whichever child is active
+            fin = [c for c in reg.children if c.tag == "final"]
+            srcs = [c for c in reg.children if c.tag == "state"]
+            if fin:
+                src = reg if (r.random() < 0.7 or not srcs) else r.choice(srcs)
+                t = El("transition", {"event": "c" if r.random() < 0.75 else r.choice(["a", "b", "a b"]), "target": fin[0].attrs["id"]})
+                if src is reg:
+                    t.attrs["type"] = "internal"   # stays inside the region; an external one would leave and re-enter the whole parallel
+                src.children.insert(0, t)
+                t.parent = src
         if self.f["hist_bias"]:
             # ways out of the history scopes and back in through the history pseudo-states
             hists = [e for e in root.walk() if e.tag == "history"]
@@ -282,6 +299,8 @@ class Gen(object):
         eventless = self.f["eventless"] and x < (0.22 if not (self.f["par_bias"] or self.f["hist_bias"]) else 0.08)
         if not eventless:
             d = r.choice(DESCRIPTORS if not self.f["small_alphabet"] else ["a", "b", "a", "b", "a.x", "a b", "*"])
+            if d == "*" and getattr(self, "completable", False):
+                d = r.choice(["a", "b"])     # a catch-all would also catch the event that finishes the regions
             if self.f["done_events"] and r.random() < 0.15:
                 cands = [e for e in self.root.walk() if e.tag in ("state", "parallel") and [c for c in e.children if c.tag in ("state", "parallel", "final")]]
                 if cands:
